@@ -12,6 +12,7 @@ import (
 	"sort"
 	"strings"
 	"sync"
+	"syscall"
 	"time"
 )
 
@@ -116,6 +117,8 @@ type Run struct {
 	mu     sync.Mutex
 	res    Result
 	ntSeen map[uint64]struct{}
+	expCalls int
+	expired  bool
 	// Announce, when non-empty, is a file the worker writes the current case to before
 	// running it (so the parent can attribute a worker death).
 	Announce string
@@ -150,7 +153,31 @@ func (r *Run) Mine(i int64) bool {
 
 // Expired reports whether the soft time budget is exhausted. A property that stops because of
 // it must call Capped.
-func (r *Run) Expired() bool { return time.Now().After(r.End) }
+//
+// The budget is measured in CPU time of this worker process (so that an oversubscribed machine
+// does not shrink what a tier covers), with a wall-clock cap of 3x the budget.
+func (r *Run) Expired() bool {
+	r.expCalls++
+	if r.expired {
+		return true
+	}
+	if r.expCalls&15 != 1 { // getrusage is cheap but not free
+		return false
+	}
+	budget := r.End.Sub(r.Start)
+	if time.Since(r.Start) > 3*budget || cpuTime() > budget {
+		r.expired = true
+	}
+	return r.expired
+}
+
+func cpuTime() time.Duration {
+	var ru syscall.Rusage
+	if err := syscall.Getrusage(syscall.RUSAGE_SELF, &ru); err != nil {
+		return 0
+	}
+	return time.Duration(ru.Utime.Nano() + ru.Stime.Nano())
+}
 
 // Capped records that a cap was hit; the run is then not exhaustive.
 func (r *Run) Capped(what string) {
